@@ -353,8 +353,10 @@ inline std::string render_tok(const Tok &t, int f) {
 
 struct Alt { std::string bytes; std::string label; };
 
-// The deviation alphabet of one token in one format.  reduced: the small alphabet used for pairs.
-inline std::vector<Alt> alphabet(const Tok &t, int f, bool reduced) {
+// The deviation alphabet of one token in one format.  level 0: full (single deviations); 1: reduced
+// (pairs of substitutions); 2: tiny (substitution combined with truncation / segment move).
+inline std::vector<Alt> alphabet(const Tok &t, int f, int level) {
+  const bool reduced = level >= 1, tiny = level >= 2;
   std::vector<Alt> A;
   std::set<std::string> seen;
   std::string orig = render_tok(t, f);
@@ -369,10 +371,11 @@ inline std::vector<Alt> alphabet(const Tok &t, int f, bool reduced) {
     case K_CH: {
       if (t.special == 1) { for (char c : {'g', 'b', 'x'}) add(std::string(1, c), std::string("fmt=") + c); add(std::string(1, '\0'), "fmt=NUL"); add("", "fmt=none"); return A; }
       const char full[] = {'o', 'v', 'n', 's', 'l', 'f', 'h', 'C', 'L', 'b', 'z', '5', '9'};
-      const char red[] = {'o', 'h', 'z'};
-      if (reduced) for (char c : red) add(pre + c, std::string("ch=") + c);
+      const char red[] = {'o', 'z'};
+      if (tiny) add(pre + 'z', "ch=z");
+      else if (reduced) for (char c : red) add(pre + c, std::string("ch=") + c);
       else for (char c : full) add(pre + c, std::string("ch=") + c);
-      add(pre + std::string(1, '\0'), "ch=NUL");
+      if (!tiny) add(pre + std::string(1, '\0'), "ch=NUL");
       if (!reduced) { add(pre + std::string(1, (char)0x80), "ch=0x80"); add(pre, "ch=none"); }
       return A;
     }
@@ -388,7 +391,8 @@ inline std::vector<Alt> alphabet(const Tok &t, int f, bool reduced) {
   if (t.special == 2) v = f == TEXT ? 0 : f == BIN ? 1 : 2;
   if (text) {
     std::vector<std::string> vals;
-    if (reduced) vals = {"0", std::to_string(t.ub >= 0 ? t.ub : v + 1), "2147483647", "-1", "", "1e300"};
+    if (tiny) vals = {std::to_string(t.ub >= 0 ? t.ub : v + 1), "2147483647"};
+    else if (reduced) vals = {"0", std::to_string(t.ub >= 0 ? t.ub : v + 1), "2147483647", ""};
     else {
       vals = {"0", "1", "2", std::to_string(v - 1), std::to_string(v + 1)};
       if (t.ub >= 0) { vals.push_back(std::to_string(t.ub - 1)); vals.push_back(std::to_string(t.ub)); vals.push_back(std::to_string(t.ub + 1)); }
@@ -399,17 +403,18 @@ inline std::vector<Alt> alphabet(const Tok &t, int f, bool reduced) {
   }
   // binary numeric
   if (t.k == K_DBL) {
-    std::vector<double> ds = reduced ? std::vector<double>{1e300, NAN}
+    std::vector<double> ds = tiny ? std::vector<double>{NAN} : reduced ? std::vector<double>{1e300, NAN}
                                      : std::vector<double>{0.0, 1e300, NAN, INFINITY, 4.9406564584124654e-324, -1.0};
     for (double d : ds) { std::string o; put_dbl(o, d, f); add(o, "=" + dtoa17(d)); }
     return A;
   }
   if (t.k == K_SHORT) {
-    for (long long x : {0LL, 1LL, -1LL, 32767LL, -32768LL}) { std::string o; put_short(o, x, f); add(o, "=" + std::to_string(x)); }
+    for (long long x : {0LL, 1LL, -1LL, 32767LL, -32768LL}) { if (tiny && x != 32767) continue; std::string o; put_short(o, x, f); add(o, "=" + std::to_string(x)); }
     return A;
   }
   std::vector<long long> iv;
-  if (reduced) iv = {0, t.ub >= 0 ? t.ub : v + 1, INT_MAX, -1};
+  if (tiny) iv = {t.ub >= 0 ? t.ub : v + 1, INT_MAX};
+  else if (reduced) iv = {0, t.ub >= 0 ? t.ub : v + 1, INT_MAX, -1};
   else {
     iv = {0, 1, 2, v - 1, v + 1, INT_MAX, (long long)INT_MIN, -1};
     if (t.ub >= 0) { iv.push_back(t.ub - 1); iv.push_back(t.ub); iv.push_back(t.ub + 1); }
@@ -440,7 +445,7 @@ inline int header_end(const Base &b) {
 }
 
 inline std::string render(const Base &b, int f, const std::vector<Sub> &subs, const std::vector<std::vector<Alt>> &alph,
-                          const std::vector<std::vector<Alt>> &alph_red, bool reduced, SegOp op = SegOp()) {
+                          SegOp op = SegOp()) {
   std::vector<std::pair<int, int>> S = segments(b);
   std::vector<int> order;
   for (int i = 0; i < (int)S.size(); ++i) order.push_back(i);
@@ -449,7 +454,7 @@ inline std::string render(const Base &b, int f, const std::vector<Sub> &subs, co
   else if (op.k == SEG_DUP) order.insert(order.begin() + op.a, op.a);
   std::string out;
   auto emit = [&](int i) {
-    for (auto &s : subs) if (s.tok == i) { out += (reduced ? alph_red : alph)[i][s.alt].bytes; return; }
+    for (auto &s : subs) if (s.tok == i) { out += alph[i][s.alt].bytes; return; }
     out += render_tok(b.t[i], f);
   };
   int he = header_end(b);
